@@ -1,6 +1,7 @@
 package c20
 
 import (
+	"fmt"
 	"math"
 	"math/rand"
 	"strconv"
@@ -198,6 +199,104 @@ func modelled(e sx.Sexp, m []entry, entryMode bool) bool {
 	return true
 }
 
+// ---- the float oracle: fmt.Sprintf on the format strings the code hands to fmt -----------------------------------------
+
+func stripDelims(s string) string {
+	return strings.Map(func(r rune) rune {
+		if strings.ContainsRune("[{<(|", r) {
+			return -1
+		}
+		return r
+	}, s)
+}
+
+// unParse of the Format record of a parsed directive with the given changes (Go twin of the model's unParse)
+func unParseDir(d dir, letter byte, withoutWidth bool) string {
+	b := "%"
+	zero, left, alt, width := d.zero, d.minus, d.sharp, d.width
+	if withoutWidth {
+		zero, left, alt, width = false, false, false, -1
+	}
+	if zero {
+		b += "0"
+	}
+	plus := byte(0)
+	if d.space {
+		plus = ' '
+	} else if d.plus {
+		plus = '+'
+	}
+	if plus != 0 {
+		b += string(plus)
+	}
+	if left {
+		b += "-"
+	}
+	if ld := d.ldelim(); ld != 0 && ld != plus {
+		b += string(ld)
+	}
+	if alt {
+		b += "#"
+	}
+	if width >= 0 {
+		b += strconv.Itoa(width)
+	}
+	if d.prec >= 0 {
+		b += "." + strconv.Itoa(d.prec)
+	}
+	return b + string(letter)
+}
+
+func floatOracle(d dir, f float64) sx.Sexp {
+	fs := []string{stripDelims(d.raw), stripDelims(unParseDir(d, d.letter, true)), stripDelims(unParseDir(d, 'e', false)),
+		stripDelims(unParseDir(d, 'E', false)), "%g", "%#g", "%e", "%#e"}
+	seen := map[string]bool{}
+	xs := []sx.Sexp{}
+	for _, fm := range fs {
+		if seen[fm] {
+			continue
+		}
+		seen[fm] = true
+		xs = append(xs, sx.L(sx.Str(fm), sx.Str(fmt.Sprintf(fm, f))))
+	}
+	return sx.L(xs...)
+}
+
+// a top-level Integer/Float/Boolean under a single directive whose rendering needs float digits: send it to the model
+// with the oracle instead of implementation-only
+func emitWithOracle(g *core.G, ctx sx.Sexp, v sx.Sexp) bool {
+	mode := ctx.Tag()
+	if mode != "kind" && mode != "self" {
+		return false
+	}
+	d := parseDir(ctx.Args()[0].MustStr())
+	if !d.ok {
+		return false
+	}
+	var f float64
+	ofint := sx.A("-")
+	switch v.Tag() {
+	case "f":
+		u, _ := strconv.ParseUint(v.Args()[0].Atom, 10, 64)
+		f = math.Float64frombits(u)
+		if math.IsNaN(f) || math.IsInf(f, 0) {
+			return false
+		}
+	case "i":
+		f = float64(v.Args()[0].MustInt())
+		ofint = sx.A(strconv.FormatUint(math.Float64bits(f), 10))
+	case "b":
+		if v.Args()[0].MustBool() {
+			f = 1
+		}
+		ofint = sx.A(strconv.FormatUint(math.Float64bits(f), 10))
+	default:
+		return false
+	}
+	g.Emit("fmtf " + ctx.String() + " " + v.String() + " " + ofint.String() + " " + floatOracle(d, f).String())
+	return true
+}
+
 func emitFmt(g *core.G, ctx sx.Sexp, v sx.Sexp) {
 	mode := ctx.Tag()
 	in := false
@@ -214,6 +313,9 @@ func emitFmt(g *core.G, ctx sx.Sexp, v sx.Sexp) {
 	}
 	line := "fmt " + ctx.String() + " " + v.String()
 	if !in {
+		if emitWithOracle(g, ctx, v) {
+			return
+		}
 		line = "@" + line
 	}
 	g.Emit(line)
